@@ -29,8 +29,8 @@ class EventSetup {};
 class InputTag {
  public:
   InputTag() {}
-  InputTag(const std::string &l) : m_label(l) {}
-  InputTag(const char *l) : m_label(l) {}
+  explicit InputTag(const std::string &l) : m_label(l) {}
+  explicit InputTag(const char *l) : m_label(l) {}
   const std::string &label() const { return m_label; }
  private:
   std::string m_label;
